@@ -9,7 +9,7 @@ func init() {
 	register(&propDef{
 		id: "C34", title: "Membership events are emitted once and only after rebalancing settles",
 		technique: "lockset with *Locked caller-holds propagation, guard dominance (emission only on the 'epoch completed' edge or from the timeout callback), who-may-call on the emitters, dedup-filter ordering (Contains ⇒ return ≺ Add ≺ send), test-and-set rule for epoch dedup",
-		explanation: "Decides: (1) every event-tracking map, filter and epoch variable of the cluster engine is accessed only under eventsLock; the *Locked helpers are called only with it held; (2) emission gating: the per-epoch emitters are called only on edges where the epoch is known to be complete (the comma-ok lookup in rebalanceCompleteSeen succeeded, or the completion was just recorded), the overdue emitter only from the timer callback armed when the departure was tracked; NodeLeft/NodeJoined payloads are sent only by emitNodeLeftLocked / emitNodeJoinedLocked, which are called only by those emitters; (3) dedup: both emitters return when the node is already in their filter, add it otherwise, and only then send; a NodeLeft removes the node from the joined filter (a later NodeJoined is a new event); (4) the local node's own join is dropped before anything is recorded (trackNodeJoinEvent, processRebalanceStart); (5) rebalance start/complete notifications are deduplicated by epoch with a test-and-set under the lock.",
+		explanation: "Decides: (1) every event-tracking map, filter and epoch variable of the cluster engine is accessed only under eventsLock; the *Locked helpers are called only with it held; (2) emission gating: the per-epoch emitters are called only on edges where the epoch is known to be complete (the comma-ok lookup in rebalanceCompleteSeen succeeded, or the completion was just recorded), the overdue emitter only from the timer callback armed when the departure was tracked; NodeLeft/NodeJoined payloads are sent only by emitNodeLeftLocked / emitNodeJoinedLocked, which are called only by those emitters; (3) dedup: both emitters return when the node is already in their filter, add it otherwise, and only then send; a NodeLeft removes the node from the joined filter (a later NodeJoined is a new event); (4) the local node's own join is dropped before anything is recorded (trackNodeJoinEvent, processRebalanceStart); (5) rebalance start/complete notifications are deduplicated by epoch with a test-and-set under the lock. Added after seed C34a: the seen-epoch sets of rebalance notifications only grow.",
 		assumptions: []string{"full history semantics (epoch supersession across overlapping rebalances)", "a full event channel drops the event (logged)"},
 		minObl:     38,
 		run:        runC34,
